@@ -28,6 +28,9 @@ func runC02(p *eng.Prog, r *eng.Report, tier string) {
 	// every fault and perform one wrapped operation per call (= C04.13)
 	c04AdaptersReportEveryFault(c, "C02.14")
 	jidCore(c, "C02.15")
+	c02ScanWholeList(c, "C02.16")
+	sendErrorOnlyFromServe(c, "C02.17")
+	c12HeaderKeepsAbsent(c, "C02.18")
 	jidEqualRule(c, "C02.11")
 	jidAppendsFresh(c, "C02.12")
 	c02TeeWrapsWhatItWasGiven(c, "C02.13")
@@ -611,4 +614,88 @@ func c02TeeWrapsWhatItWasGiven(c *cx, id string) {
 		c.r.Check(id, f, "tee over the connection it was given", "K: newTeeConn returns its argument (already a tee) or a teeConn whose Conn is the argument", rs.Pos(), okr, why+": a layer of the connection (the TLS layer after STARTTLS) is dropped")
 	}
 	c.r.Floor(id, "returns of newTeeConn", n, 2)
+}
+
+// c02ScanWholeList (C02.16): the downgrade protection asks "is STARTTLS among
+// the configured features", wherever it is in the slice: the scan in
+// containsStartTLS leaves its loop early only through the edge on which the
+// feature's namespace is the STARTTLS namespace (a scan that stops at the first
+// feature "that needs a secure stream anyway" misses a STARTTLS feature
+// listed after SASL, and the forced attempt is silently off).
+func c02ScanWholeList(c *cx, id string) {
+	f := c.fn(id, "", "containsStartTLS")
+	if f == nil {
+		return
+	}
+	g := f.Graph()
+	n := 0
+	f.WalkBody(func(nd ast.Node) bool {
+		rs, ok := nd.(*ast.RangeStmt)
+		if !ok {
+			return true
+		}
+		body, _, done, okp := g.LoopPoints(rs)
+		if !okp {
+			return true
+		}
+		n++
+		cut := eng.Cut{}
+		for _, pat := range []string{"eq(rangeval(p0).Name.Space,internal/ns.StartTLS)", "eq(internal/ns.StartTLS,rangeval(p0).Name.Space)", "eq(rangeval(p0).Name,*)", "!rangenext(p0)"} {
+			for _, ce := range g.EdgesMatching(pat) {
+				cut[ce.E] = true
+			}
+		}
+		early := g.Reachable(body, done, cut, nil)
+		for _, r := range g.Returns {
+			if rp, ok := g.Where(r); ok && nodeContains(rs.Body, r) && g.Reachable(body, rp, cut, nil) {
+				early = true
+			}
+		}
+		c.r.Check(id, f, "scan over the configured features", "O: the loop is left early only on the edge that found the STARTTLS namespace", rs.Pos(), !early, "the scan can stop before it has seen every feature: a STARTTLS feature behind that point is not found and the unadvertised attempt is not made")
+		return true
+	})
+	c.r.Floor(id, "loops in containsStartTLS", n, 1)
+}
+
+// sendErrorOnlyFromServe (C02.17 / C10.17): Session.sendError writes a stream
+// error (through the buffered encoder) and the closing tag. It is Serve's
+// reaction to a failed element on an established session; called from the
+// negotiation it puts bytes other than the header and the STARTTLS request on
+// a connection that is not protected yet.
+func sendErrorOnlyFromServe(c *cx, id string) {
+	n := 0
+	for _, f := range c.allFns() {
+		for _, cl := range f.CallsDeep("xmpp.Session.sendError") {
+			n++
+			c.r.Check(id, f, "call of Session.sendError", "C: only Serve reports a failure to the peer with sendError", cl.Pos(), f.Short == "xmpp.(*Session).Serve", "called from "+f.Short+": a stream error and the closing tag are written outside the serve loop")
+		}
+	}
+	c.r.Floor(id, "call sites of Session.sendError", n, 1)
+}
+
+// c12HeaderKeepsAbsent (C02.18 / C12.16): Info.FromStartElement fills in what the
+// header says and leaves the rest alone: the session's own address
+// (Session.LocalAddr() is in.Info.To) survives a response header without a
+// `to`, which the negotiator tolerates. No statement stores the whole Info,
+// and every field other than Name is stored under the arm of its attribute.
+func c12HeaderKeepsAbsent(c *cx, id string) {
+	f := c.fn(id, "stream", "(*Info).FromStartElement")
+	if f == nil {
+		return
+	}
+	n := 0
+	for _, w := range f.Writes() {
+		if st, ok := ast.Unparen(w.LHS).(*ast.StarExpr); ok {
+			if idn, ok := ast.Unparen(st.X).(*ast.Ident); ok && f.Sig().Recv() != nil && f.Info().ObjectOf(idn) == types.Object(f.Sig().Recv()) {
+				c.r.Check(id, f, "whole Info overwritten", "W: FromStartElement assigns fields, never the whole value (what the header omits keeps its earlier value)", w.Stmt.Pos(), false, "the store resets every field: an address the header does not repeat is forgotten (LocalAddr becomes empty, the default TLS ServerName with it)")
+			}
+		}
+		cls, ok := f.FieldClass(w.LHS)
+		if !ok || !strings.HasPrefix(cls, "stream.Info.") || cls == "stream.Info.Name" {
+			continue
+		}
+		n++
+		c.domAny(id, f, w.Stmt, "field "+strings.TrimPrefix(cls, "stream.Info.")+" stored under its attribute's arm", []string{"eq(rangeval(p0.Attr).Name,*)", "eq(*,rangeval(p0.Attr).Name)", "eq(rangeval(p0.Attr).Name.Local,*)"})
+	}
+	c.r.Floor(id, "field stores in FromStartElement", n, 3)
 }
